@@ -21,11 +21,25 @@ A kernel without `return` value yields the tuple of the arrays it stores into.
 checked=True threads a ghost flag `ok__`: it becomes false as soon as an array read or
 store uses an index outside [0, len) (reads guarded by short-circuit `and`/`or` are
 only counted when evaluated); the kernel then returns (result, ok__).
+
+Second output file coq/Gen/Kernels2.v (KERNELS2, always bounds-checked; Kernels.v stays byte-identical):
+  types  MT (2-d array of elements -> list (list T), row major), tuples of scalars as return type
+  a[i, j] reads / stores / `a[i, j] op= e` (get2 / set2: an index i < 0 denotes i + size, as in NumPy/Numba;
+         bounds flag inb2: the wrapped index must lie in [0, size)), `nr, nc = a.shape`, `a.shape[0|1]`,
+         `a[:-1, :]` as a read-only call argument,
+  np.inf (the generated function takes an extra leading parameter `inf_ : T`; module-level float constants
+         used as omitted default arguments become extra parameters in the same way),
+  int literals 0 / 1 / -1 in element context (nzero / none_ / nsub nzero none_), `!=` on elements,
+  tuple returns, tuple assignment from a call, default arguments, keyword arguments,
+  calls (as statements `f(..)`, `x = f(..)`, `x, y = f(..)`) to previously generated KERNELS2 kernels: the callee
+         returns (value, arrays it stores into ..., ok__); the caller rebinds the arrays it passed and
+         conjoins the flag.  `return a` of a stored array parameter in a procedure = end of procedure.
 """
 import ast, os, sys
 
 REPO = os.environ.get("VERIF_REPO", "/repo")
 OUT = os.path.join(os.path.dirname(os.path.abspath(__file__)), "..", "coq", "Gen", "Kernels.v")
+OUT2 = os.path.join(os.path.dirname(os.path.abspath(__file__)), "..", "coq", "Gen", "Kernels2.v")
 
 # (coq name, file, python function, parameter types, return type or None for procedures,
 #  {while-loop ordinal: fuel expr in Coq}, checked)
@@ -50,8 +64,29 @@ KERNELS = [
     ("find_indices", "quantecon/markov/utilities.py", "_find_indices",
      [("a_indices", "LZ"), ("a_indptr", "LZ"), ("sigma", "LZ"), ("out", "LZ")], None, {}, True),
 ]
+# Kernels2.v: dict(cname, file, py, params, rtype (None | type | tuple of types), fuels)
+PIV = "quantecon/optimize/pivoting.py"
+KERNELS2 = [
+    dict(cname="pivoting", file=PIV, py="_pivoting",
+         params=[("tableau", "MT"), ("pivot_col", "Z"), ("pivot_row", "Z")], rtype=None, fuels={}),
+    dict(cname="min_ratio_test_no_tie_breaking", file=PIV, py="_min_ratio_test_no_tie_breaking",
+         params=[("tableau", "MT"), ("pivot", "Z"), ("test_col", "Z"), ("argmins", "LZ"), ("num_candidates", "Z"),
+                 ("tol_piv", "T"), ("tol_ratio_diff", "T")], rtype="Z", fuels={}),
+    dict(cname="lex_min_ratio_test", file=PIV, py="_lex_min_ratio_test",
+         params=[("tableau", "MT"), ("pivot", "Z"), ("slack_start", "Z"), ("argmins", "LZ"),
+                 ("tol_piv", "T"), ("tol_ratio_diff", "T")], rtype=("B", "Z"), fuels={}),
+]
 CALLABLE = {}
-COQTY = {"Z": "Z", "T": "T", "B": "bool", "LT": "list T", "LZ": "list Z"}
+CALL2 = {}    # python name -> dict(coq, params, rtype, outs, amb, defaults, modconsts)
+COQTY = {"Z": "Z", "T": "T", "B": "bool", "LT": "list T", "LZ": "list Z", "MT": "list (list T)"}
+ELT = {"LT": "T", "LZ": "Z"}
+
+
+def coqty(t):
+    if isinstance(t, tuple):
+        return "(" + " * ".join(coqty(x) for x in t) + ")"
+    return COQTY[t]
+
 
 PRELUDE = """(* helpers used by the generated code *)
 Fixpoint upd_nth {A} (l : list A) (i : nat) (v : A) : list A :=
@@ -61,6 +96,22 @@ Fixpoint upd_nth {A} (l : list A) (i : nat) (v : A) : list A :=
   | x :: r, S i' => x :: upd_nth r i' v
   end.
 Definition inb {A} (i : Z) (l : list A) : bool := (0 <=? i) && (i <? Z.of_nat (length l)).
+"""
+
+PRELUDE2 = """(* helpers for 2-d arrays (row-major list of rows).  An index i < 0 denotes i + size (NumPy/Numba
+   wraparound); inb2 is the bounds flag of one 2-d access: both wrapped indices inside the array. *)
+Definition widx (i : Z) (n : nat) : Z := if i <? 0 then i + Z.of_nat n else i.
+Definition row2 {A} (a : list (list A)) (i : Z) : list A := nth (Z.to_nat (widx i (length a))) a [].
+Definition get2 {T : Type} `{Num T} (a : list (list T)) (i j : Z) : T :=
+  nth (Z.to_nat (widx j (length (row2 a i)))) (row2 a i) nzero.
+Definition set2 {A} (a : list (list A)) (i j : Z) (v : A) : list (list A) :=
+  upd_nth a (Z.to_nat (widx i (length a))) (upd_nth (row2 a i) (Z.to_nat (widx j (length (row2 a i)))) v).
+Definition inb2 {A} (i j : Z) (a : list (list A)) : bool :=
+  inb (widx i (length a)) a && inb (widx j (length (row2 a i))) (row2 a i).
+Definition nrows2 {A} (a : list (list A)) : Z := Z.of_nat (length a).
+Definition ncols2 {A} (a : list (list A)) : Z := Z.of_nat (length (nth 0%nat a [])).
+(* a[:-1, :] *)
+Definition droplast2 {A} (a : list (list A)) : list (list A) := firstn (length a - 1) a.
 """
 
 
@@ -87,14 +138,18 @@ def is_cond(e):
 
 
 class Tr:
-    def __init__(self, cname, fn, ptypes, rtype, fuels, checked):
+    def __init__(self, cname, fn, ptypes, rtype, fuels, checked, v2=False, modconsts=None):
         self.cname, self.fn, self.rtype, self.fuels, self.checked = cname, fn, rtype, fuels, checked
         self.types = dict(ptypes)
         self.params = [p for p, _ in ptypes]
         self.aux = []
         self.nloops = 0
         self.nwhile = 0
-        self.generic = any(t in ("T", "LT") for _, t in ptypes)
+        self.generic = any(t in ("T", "LT", "MT") for _, t in ptypes)
+        self.v2 = v2                    # Kernels2 mode: results carry the stored arrays, 2-d arrays, calls with effects
+        self.amb = []                   # extra leading element parameters (inf_, module constants), in order of first use
+        self.amb_stack = []
+        self.modconsts = modconsts or {}
         if checked:
             self.types["ok__"] = "B"
 
@@ -107,7 +162,16 @@ class Tr:
                 raise Unsupported("unknown variable %s" % e.id)
             return self.types[e.id]
         if isinstance(e, ast.Subscript):
+            if self.v2 and self.shape_of(e.value):
+                arr = self.shape_of(e.value)
+                if isinstance(e.slice, ast.Constant) and e.slice.value in ((0, 1) if self.types[arr] == "MT" else (0,)):
+                    return "Z"
+                raise Unsupported("shape component %s" % ast.unparse(e))
             t = self.ty(e.value)
+            if self.v2 and t == "MT":
+                if isinstance(e.slice, ast.Tuple) and len(e.slice.elts) == 2 and all(self.ty(x) == "Z" for x in e.slice.elts):
+                    return "T"
+                raise Unsupported("2-d subscript %s" % ast.unparse(e))
             if t not in ("LT", "LZ"):
                 raise Unsupported("subscript of non-array")
             return {"LT": "T", "LZ": "Z"}[t]
@@ -117,9 +181,20 @@ class Tr:
             return "Z"
         if isinstance(e, ast.BinOp):
             a, b = self.ty(e.left), self.ty(e.right)
+            if self.v2 and (a, b) == ("T", "Z") and self.intlit(e.right) is not None:
+                return "T"
+            if self.v2 and (a, b) == ("Z", "T") and self.intlit(e.left) is not None:
+                return "T"
             if a != b or a not in ("Z", "T"):
                 raise Unsupported("mixed arithmetic in %s" % ast.unparse(e))
             return a
+        if self.v2 and isinstance(e, ast.Tuple):
+            ts = tuple(self.ty(x) for x in e.elts)
+            if len(ts) < 2 or any(t not in ("Z", "T", "B") for t in ts):
+                raise Unsupported("tuple %s" % ast.unparse(e))
+            return ts
+        if self.v2 and isinstance(e, ast.Attribute) and ast.unparse(e) == "np.inf":
+            return "T"
         if isinstance(e, ast.UnaryOp) and isinstance(e.op, ast.USub):
             return self.ty(e.operand)
         if isinstance(e, ast.Call):
@@ -137,6 +212,43 @@ class Tr:
     def callname(self, e):
         return e.func.id if isinstance(e.func, ast.Name) else ast.unparse(e.func)
 
+    # ---------------- Kernels2 helpers
+    def shape_of(self, e):
+        """e is `a.shape` of an array variable: its name, else None"""
+        if isinstance(e, ast.Attribute) and e.attr == "shape" and isinstance(e.value, ast.Name) \
+                and self.types.get(e.value.id) in ("MT", "LT", "LZ"):
+            return e.value.id
+        return None
+
+    def shape_ex(self, arr, k):
+        if self.types[arr] == "MT":
+            return "(%s %s)" % ("nrows2" if k == 0 else "ncols2", arr)
+        return "(Z.of_nat (length %s))" % arr
+
+    def intlit(self, e):
+        """int literal 0 / 1 / -1 (element context): its value, else None"""
+        if isinstance(e, ast.Constant) and type(e.value) is int and e.value in (0, 1):
+            return e.value
+        if isinstance(e, ast.UnaryOp) and isinstance(e.op, ast.USub) and isinstance(e.operand, ast.Constant) \
+                and type(e.operand.value) is int and e.operand.value == 1:
+            return -1
+        return None
+
+    def exT(self, e, want):
+        """expression of type `want`; int literals 0/1/-1 are accepted where an element is wanted"""
+        if self.v2 and want == "T" and self.intlit(e) is not None and self.ty(e) == "Z":
+            return {0: "nzero", 1: "none_", -1: "(nsub nzero none_)"}[self.intlit(e)]
+        if self.ty(e) != want:
+            raise Unsupported("type of %s: expected %s" % (ast.unparse(e), want))
+        return self.ex(e)
+
+    def use_amb(self, name):
+        if name not in self.amb:
+            self.amb.append(name)
+        for st in self.amb_stack:
+            st.add(name)
+        return name
+
     def ex(self, e):
         if is_cond(e):
             return self.cond(e)
@@ -152,6 +264,17 @@ class Tr:
             if self.ty(e.operand) != "Z":
                 raise Unsupported("element negation")
             return "(- %s)" % self.ex(e.operand)
+        if self.v2 and isinstance(e, ast.Attribute) and ast.unparse(e) == "np.inf":
+            return self.use_amb("inf_")
+        if self.v2 and isinstance(e, ast.Tuple):
+            self.ty(e)
+            return "(" + ", ".join(self.ex(x) for x in e.elts) + ")"
+        if self.v2 and isinstance(e, ast.Subscript) and self.shape_of(e.value):
+            self.ty(e)
+            return self.shape_ex(self.shape_of(e.value), e.slice.value)
+        if self.v2 and isinstance(e, ast.Subscript) and self.ty(e.value) == "MT":
+            self.ty(e)
+            return "(get2 %s %s %s)" % (self.ex(e.value), self.ex(e.slice.elts[0]), self.ex(e.slice.elts[1]))
         if isinstance(e, ast.Subscript):
             t = self.ty(e.value)
             idx = e.slice
@@ -163,7 +286,7 @@ class Tr:
             return "(nth (Z.to_nat %s) %s %s)" % (self.ex(idx), self.ex(e.value), d)
         if isinstance(e, ast.BinOp):
             t = self.ty(e)
-            a, b = self.ex(e.left), self.ex(e.right)
+            a, b = (self.exT(e.left, t), self.exT(e.right, t)) if self.v2 else (self.ex(e.left), self.ex(e.right))
             if t == "Z":
                 op = {ast.Add: "+", ast.Sub: "-", ast.Mult: "*", ast.FloorDiv: "/", ast.Mod: "mod"}.get(type(e.op))
                 if op is None:
@@ -196,9 +319,14 @@ class Tr:
         if isinstance(e, ast.Compare) and len(e.ops) == 1:
             a, b = e.left, e.comparators[0]
             ta, tb = self.ty(a), self.ty(b)
-            if ta != tb:
+            if self.v2 and (ta, tb) == ("T", "Z") and self.intlit(b) is not None:
+                sa, sb, tb = self.ex(a), self.exT(b, "T"), "T"
+            elif self.v2 and (ta, tb) == ("Z", "T") and self.intlit(a) is not None:
+                sa, sb, ta = self.exT(a, "T"), self.ex(b), "T"
+            elif ta != tb:
                 raise Unsupported("mixed comparison %s" % ast.unparse(e))
-            sa, sb = self.ex(a), self.ex(b)
+            else:
+                sa, sb = self.ex(a), self.ex(b)
             o = type(e.ops[0])
             if ta == "Z":
                 m = {ast.Lt: "(%s <? %s)", ast.LtE: "(%s <=? %s)", ast.Gt: "(%s >? %s)", ast.GtE: "(%s >=? %s)",
@@ -207,6 +335,8 @@ class Tr:
             if ta == "T":
                 m = {ast.Lt: "(nltb %s %s)", ast.LtE: "(nleb %s %s)", ast.Gt: "(nltb %s %s)", ast.GtE: "(nleb %s %s)",
                      ast.Eq: "(neqb %s %s)"}
+                if self.v2:
+                    m[ast.NotEq] = "(negb (neqb %s %s))"
                 if o not in m:
                     raise Unsupported("element comparison %s" % ast.unparse(e))
                 if o in (ast.Gt, ast.GtE):
@@ -228,7 +358,12 @@ class Tr:
                     acc = "(%s && (%s))" % (okv, guard) if okv else "(%s)" % guard
             return acc
         oks = []
-        if isinstance(e, ast.Subscript):
+        if self.v2 and isinstance(e, ast.Subscript) and self.shape_of(e.value):
+            return None
+        if self.v2 and isinstance(e, ast.Subscript) and isinstance(e.slice, ast.Tuple):
+            self.ty(e)
+            oks.append("inb2 %s %s %s" % (self.ex(e.slice.elts[0]), self.ex(e.slice.elts[1]), self.ex(e.value)))
+        elif isinstance(e, ast.Subscript):
             oks.append("inb %s %s" % (self.ex(e.slice), self.ex(e.value)))
         for ch in ast.iter_child_nodes(e):
             if isinstance(ch, ast.expr):
@@ -257,8 +392,17 @@ class Tr:
                 out.append(v)
         for s in stmts:
             for n in ast.walk(s):
+                if self.v2 and isinstance(n, ast.Call) and self.callname(n) in CALL2:
+                    info = CALL2[self.callname(n)]
+                    for pname, a in self.bind_args(n, info).items():
+                        if pname in info["outs"]:
+                            if not isinstance(a, ast.Name):
+                                raise Unsupported("stored array argument %s" % ast.unparse(a))
+                            add(a.id)
                 if isinstance(n, (ast.Assign, ast.AugAssign)):
                     tgts = n.targets if isinstance(n, ast.Assign) else [n.target]
+                    if self.v2:
+                        tgts = [x for t in tgts for x in (t.elts if isinstance(t, ast.Tuple) else [t])]
                     for t in tgts:
                         if isinstance(t, ast.Name):
                             add(t.id)
@@ -282,8 +426,15 @@ class Tr:
             return self.terminates(s.body) and self.terminates(s.orelse)
         return False
 
-    def has_exit(self, stmts):
-        return any(isinstance(n, (ast.Return, ast.Break, ast.Continue)) for s in stmts for n in ast.walk(s))
+    def has_exit(self, stmts, in_loop=False):
+        for s in stmts:
+            if isinstance(s, ast.Return) or (isinstance(s, (ast.Break, ast.Continue)) and not in_loop):
+                return True
+            if isinstance(s, ast.If) and (self.has_exit(s.body, in_loop) or self.has_exit(s.orelse, in_loop)):
+                return True
+            if isinstance(s, (ast.For, ast.While)) and (self.has_exit(s.body, True) or self.has_exit(s.orelse, in_loop)):
+                return True
+        return False
 
     def tuple_of(self, names):
         return names[0] if len(names) == 1 else "(" + ", ".join(names) + ")"
@@ -302,6 +453,10 @@ class Tr:
                 if k["end_proc"] is None:
                     raise Unsupported("bare return")
                 return k["end_proc"]()
+            if self.v2 and self.rtype is None and isinstance(s.value, ast.Name) and s.value.id in self.outs:
+                if k["end_proc"] is None:
+                    raise Unsupported("return inside a loop of a procedure")
+                return k["end_proc"]()     # `return a` of a stored array parameter: the caller already holds it
             if self.rtype is None or self.ty(s.value) != self.rtype:
                 raise Unsupported("return type of %s" % ast.unparse(s))
             return self.guard([s.value], k["ret"](self.ex(s.value)))
@@ -317,22 +472,62 @@ class Tr:
                 value = ast.BinOp(left=tgt, op=s.op, right=s.value)
             else:
                 value = s.value
+            if self.v2 and isinstance(value, ast.Call) and self.callname(value) in CALL2:
+                return self.call_stmt(tgt, value, rest, k)
+            if self.v2 and isinstance(tgt, ast.Tuple) and all(isinstance(x, ast.Name) for x in tgt.elts):
+                names = [x.id for x in tgt.elts]
+                if self.shape_of(value) and self.types[self.shape_of(value)] == "MT" and len(names) == 2:
+                    vals = [self.shape_ex(self.shape_of(value), 0), self.shape_ex(self.shape_of(value), 1)]
+                    tys = ["Z", "Z"]
+                elif isinstance(value, ast.Tuple) and len(value.elts) == len(names):
+                    # parallel assignment = sequential lets when no target is read by a later component
+                    for i, v in enumerate(value.elts):
+                        if any(isinstance(n, ast.Name) and n.id in names[:i] for n in ast.walk(v)):
+                            raise Unsupported("parallel assignment %s" % ast.unparse(s))
+                    vals = [self.ex(v) for v in value.elts]
+                    tys = [self.ty(v) for v in value.elts]
+                else:
+                    raise Unsupported("tuple assignment %s" % ast.unparse(s))
+                for nme, t in zip(names, tys):
+                    if (nme in self.types and self.types[nme] != t) or nme in self.params or len(set(names)) != len(names):
+                        raise Unsupported("tuple assignment target %s" % nme)
+                for nme, t in zip(names, tys):
+                    self.types[nme] = t
+                body_txt = self.stmts(rest, k)
+                for nme, v in reversed(list(zip(names, vals))):
+                    body_txt = "let %s := %s in\n%s" % (nme, v, body_txt)
+                return self.guard([value], body_txt)
+            if self.v2 and isinstance(tgt, ast.Subscript) and isinstance(tgt.value, ast.Name) \
+                    and self.types.get(tgt.value.id) == "MT":
+                arr = tgt.value.id
+                self.ty(tgt)
+                i_, j_ = self.ex(tgt.slice.elts[0]), self.ex(tgt.slice.elts[1])
+                val = self.exT(value, "T")
+                oks = [r for r in (self.reads_ok(value), self.reads_ok(tgt.slice)) if r] + ["inb2 %s %s %s" % (i_, j_, arr)]
+                return "let ok__ := ok__ && %s in\nlet %s := set2 %s %s %s %s in\n%s" % (
+                    " && ".join(oks), arr, arr, i_, j_, val, self.stmts(rest, k))
             if isinstance(tgt, ast.Name):
                 t = self.ty(value)
+                if self.v2 and self.types.get(tgt.id) == "T" and t == "Z" and self.intlit(value) is not None:
+                    t = "T"
                 if tgt.id in self.types and self.types[tgt.id] != t:
                     raise Unsupported("variable %s changes type" % tgt.id)
-                if tgt.id in self.params and self.types[tgt.id] in ("LT", "LZ"):
+                if tgt.id in self.params and self.types[tgt.id] in ("LT", "LZ", "MT"):
                     raise Unsupported("rebinding array parameter %s" % tgt.id)
-                val = self.ex(value)
+                if isinstance(t, tuple) or t in ("LT", "LZ", "MT"):
+                    raise Unsupported("assignment of %s" % ast.unparse(value))
+                val = self.exT(value, t) if self.v2 else self.ex(value)
                 txt_guard = [value]
                 self.types[tgt.id] = t
                 return self.guard(txt_guard, "let %s := %s in\n%s" % (tgt.id, val, self.stmts(rest, k)))
             if isinstance(tgt, ast.Subscript) and isinstance(tgt.value, ast.Name):
                 arr = tgt.value.id
                 at = self.ty(tgt.value)
-                if at not in ("LT", "LZ") or self.ty(tgt.slice) != "Z" or self.ty(value) != {"LT": "T", "LZ": "Z"}[at]:
+                if self.v2 and at == "LT" and self.ty(tgt.slice) == "Z" and self.intlit(value) is not None:
+                    pass
+                elif at not in ("LT", "LZ") or self.ty(tgt.slice) != "Z" or self.ty(value) != {"LT": "T", "LZ": "Z"}[at]:
                     raise Unsupported("array store %s" % ast.unparse(s))
-                val = self.ex(value)
+                val = self.exT(value, ELT[at]) if self.v2 else self.ex(value)
                 idx = self.ex(tgt.slice)
                 inner = "let %s := upd_nth %s (Z.to_nat %s) %s in\n%s" % (arr, arr, idx, val, self.stmts(rest, k))
                 if self.checked:
@@ -386,7 +581,91 @@ class Tr:
             return self.loop(s, rest, k)
         if isinstance(s, ast.Expr) and isinstance(s.value, ast.Constant):
             return self.stmts(rest, k)
+        if self.v2 and isinstance(s, ast.Expr) and isinstance(s.value, ast.Call) and self.callname(s.value) in CALL2:
+            return self.call_stmt(None, s.value, rest, k)
         raise Unsupported("statement %s" % type(s).__name__)
+
+    def bind_args(self, call, info):
+        """parameter name -> argument expression (ast), positional + keyword; omitted ones are absent"""
+        pn = [p for p, _ in info["params"]]
+        if len(call.args) > len(pn) or any(isinstance(a, ast.Starred) for a in call.args):
+            raise Unsupported("arguments of %s" % ast.unparse(call))
+        m = dict(zip(pn, call.args))
+        for kw in call.keywords:
+            if kw.arg is None or kw.arg not in pn or kw.arg in m:
+                raise Unsupported("keyword argument in %s" % ast.unparse(call))
+            m[kw.arg] = kw.value
+        return m
+
+    def array_arg(self, a, want):
+        """read-only array argument: a variable, or the view a[:-1, :] of a 2-d array"""
+        if isinstance(a, ast.Name) and self.types.get(a.id) == want:
+            return a.id
+        if want == "MT" and isinstance(a, ast.Subscript) and isinstance(a.value, ast.Name) \
+                and self.types.get(a.value.id) == "MT" and ast.unparse(a.slice) in ("(slice(None, -1, None), slice(None, None, None))", ":-1, :"):
+            return "(droplast2 %s)" % a.value.id
+        raise Unsupported("array argument %s" % ast.unparse(a))
+
+    def call_stmt(self, tgt, call, rest, k):
+        """`f(..)`, `x = f(..)`, `x, y = f(..)` with f a Kernels2 kernel: f returns (value, stored arrays.., ok__)"""
+        if not self.checked:
+            raise Unsupported("call with effects from an unchecked kernel")
+        info = CALL2[self.callname(call)]
+        m = self.bind_args(call, info)
+        args, read_exprs, outnames = [], [], []
+        for pname, ptype in info["params"]:
+            if pname not in m:
+                d = info["defaults"].get(pname)
+                if isinstance(d, ast.Name) and d.id in info["modconsts"] and ptype == "T":
+                    args.append(self.use_amb(d.id))      # module-level float constant: extra parameter of this kernel
+                elif isinstance(d, ast.Constant) and type(d.value) is bool and ptype == "B":
+                    args.append("true" if d.value else "false")
+                elif isinstance(d, ast.Constant) and type(d.value) is int and ptype == "Z":
+                    args.append("%d" % d.value if d.value >= 0 else "(%d)" % d.value)
+                else:
+                    raise Unsupported("omitted argument %s of %s" % (pname, ast.unparse(call)))
+                continue
+            a = m[pname]
+            if pname in info["outs"]:
+                if not (isinstance(a, ast.Name) and self.types.get(a.id) == ptype):
+                    raise Unsupported("stored array argument %s" % ast.unparse(a))
+                if a.id in outnames or sum(isinstance(n, ast.Name) and n.id == a.id for x in m.values() for n in ast.walk(x)) != 1:
+                    raise Unsupported("aliased array argument %s" % a.id)
+                outnames.append(a.id)
+                args.append(a.id)
+            elif ptype in ("LT", "LZ", "MT"):
+                args.append(self.array_arg(a, ptype))
+            else:
+                args.append(self.exT(a, ptype))
+                read_exprs.append(a)
+        amb = [self.use_amb(x) for x in info["amb"]]
+        # value pattern
+        rt = info["rtype"]
+        if rt is None or tgt is None:
+            vpat = [] if rt is None else ["_"]
+            if tgt is not None:
+                raise Unsupported("value of procedure %s" % ast.unparse(call))
+            newtypes = {}
+        elif isinstance(rt, tuple):
+            if not (isinstance(tgt, ast.Tuple) and len(tgt.elts) == len(rt) and all(isinstance(x, ast.Name) for x in tgt.elts)):
+                raise Unsupported("target of %s" % ast.unparse(call))
+            vpat = [x.id for x in tgt.elts]
+            newtypes = dict(zip(vpat, rt))
+        else:
+            if not isinstance(tgt, ast.Name):
+                raise Unsupported("target of %s" % ast.unparse(call))
+            vpat = [tgt.id]
+            newtypes = {tgt.id: rt}
+        if len(set(vpat + outnames)) != len(vpat + outnames) and "_" not in vpat:
+            raise Unsupported("repeated target in %s" % ast.unparse(call))
+        for nme, t in newtypes.items():
+            if (nme in self.types and self.types[nme] != t) or nme in self.params:
+                raise Unsupported("variable %s changes type / rebinding a parameter" % nme)
+        self.types.update(newtypes)
+        pat = "'(" + ", ".join(vpat + outnames + ["okc__"]) + ")"
+        txt = "let %s := %s %s in\nlet ok__ := ok__ && okc__ in\n%s" % (
+            pat, info["coq"], " ".join(amb + args), self.stmts(rest, k))
+        return self.guard(read_exprs, txt)
 
     def loop(self, s, rest, k):
         if s.orelse:
@@ -410,6 +689,7 @@ class Tr:
             ivar = s.target.id
             if ivar in self.types and self.types[ivar] != "Z":
                 raise Unsupported("loop variable type")
+            ivar_fresh = ivar not in self.types
             self.types[ivar] = "Z"
             fuel = "(Z.to_nat (%s - %s))" % (hi, lo)
         else:
@@ -431,9 +711,11 @@ class Tr:
         rty = "((%s) + (%s))%%type" % (RT, ctype) if has_ret else "(%s)%%type" % ctype
         wrap_inr = (lambda x: "inr %s" % x) if has_ret else (lambda x: x)
         rec_args = " ".join(([("(%s + 1)" % ivar)] if ivar else []) + carried + free)
+        ambtok = "\x00AMB%d\x00" % idx      # replaced by the ambient parameters used in the body, once known
+        self.amb_stack.append(set())
 
         def cont():
-            return "%s fuel' %s" % (lname, rec_args)
+            return "%s fuel' %s%s" % (lname, rec_args, ambtok)
         bodyk = dict(end=cont, cont=cont, brk=lambda: wrap_inr(ctuple), end_proc=None,
                      ret=(lambda e: "inl %s" % self.wrap_result(e)), prop=(lambda r: "inl %s" % r))
         btxt = self.stmts(list(s.body), bodyk)
@@ -441,10 +723,16 @@ class Tr:
             self.types = dict(pre)
             btxt = self.guard([s.test], "if %s then\n%s\nelse %s" % (self.cond(s.test), btxt, wrap_inr(ctuple)))
         self.types = dict(pre)   # temporaries of the body go out of scope
+        if self.v2 and ivar and ivar_fresh:
+            del self.types[ivar]  # the loop variable is not modelled after the loop (a later read is rejected)
+        used_amb = self.amb_stack.pop()
+        lamb = [a for a in self.amb if a in used_amb]
+        btxt = btxt.replace(ambtok, "".join(" " + a for a in lamb))
+        binders += "".join(" (%s : T)" % a for a in lamb)
         ctx = "{T : Type} `{Num T} " if self.generic else ""
         self.aux.append("Fixpoint %s %s(fuel : nat) %s : %s :=\n  match fuel with\n  | O => %s\n  | S fuel' =>\n%s\n  end." %
                         (lname, ctx, binders, rty, wrap_inr(ctuple), btxt))
-        call = "%s %s %s" % (lname, fuel, " ".join(([lo] if ivar else []) + carried + free))
+        call = "%s %s %s" % (lname, fuel, " ".join(([lo] if ivar else []) + carried + free + lamb))
         after = self.stmts(rest, k)
         pat = self.pat_of(carried) if carried else "_"
         if has_ret:
@@ -456,11 +744,15 @@ class Tr:
     def result_type(self):
         if self.rtype is None:
             base = " * ".join(COQTY[self.types[v]] for v in self.outs) if self.outs else "unit"
+        elif self.v2:
+            base = " * ".join([coqty(self.rtype)] + [COQTY[self.types[v]] for v in self.outs])
         else:
             base = COQTY[self.rtype]
         return "%s * bool" % base if self.checked else base
 
     def wrap_result(self, e):
+        if self.v2 and self.rtype is not None and self.outs:
+            e = "(%s, %s)" % (e, ", ".join(self.outs))     # value, then the arrays the kernel stores into
         return "(%s, ok__)" % e if self.checked else e
 
     def translate(self):
@@ -468,8 +760,12 @@ class Tr:
         pnames = [a.arg for a in self.fn.args.args]
         if pnames != self.params:
             raise Unsupported("parameters of %s are %s, expected %s" % (self.fn.name, pnames, self.params))
+        fa = self.fn.args
+        if self.v2 and (fa.vararg or fa.kwarg or fa.kwonlyargs or fa.posonlyargs):
+            raise Unsupported("parameter list of %s" % self.fn.name)
+        self.defaults = dict(zip(pnames[len(pnames) - len(fa.defaults):], fa.defaults))
         # procedures return the arrays they store into (in parameter order)
-        stored = [v for v in self.assigned(body) if v in self.params and self.types[v] in ("LT", "LZ")]
+        stored = [v for v in self.assigned(body) if v in self.params and self.types[v] in ("LT", "LZ", "MT")]
         self.outs = [p for p in self.params if p in stored]
 
         def end_proc():
@@ -485,6 +781,7 @@ class Tr:
         if self.checked:
             txt = "let ok__ := true in\n" + txt
         binders = " ".join("(%s : %s)" % (p, COQTY[dict(zip(self.params, [self.types[p] for p in self.params]))[p]]) for p in self.params)
+        binders = "".join("(%s : T) " % a for a in self.amb) + binders
         ctx = "{T : Type} `{Num T} " if self.generic else ""
         main = "Definition %s %s%s : %s :=\n%s." % (self.cname, ctx, binders, self.result_type(), txt)
         return "\n\n".join(self.aux + [main])
@@ -506,25 +803,64 @@ def generate():
     return "\n".join(parts)
 
 
-def main():
-    CALLABLE.clear()
-    try:
-        text = generate()
-        rc = 0
-    except (Unsupported, OSError, SyntaxError, KeyError) as e:
-        # fail closed: the generated file then contains a definition that cannot typecheck
-        text = ("(* GENERATED by harness/py2coq.py -- TRANSLATION FAILED: %s *)\n"
-                "Definition translation_failed : True := I I.\n" % (repr(e).replace("*)", "* )"),))
-        rc = 2
-    old = open(OUT).read() if os.path.exists(OUT) else None
+def module_consts(tree):
+    """module-level NAME = <numeric literal> assignments"""
+    out = {}
+    for n in tree.body:
+        if isinstance(n, ast.Assign) and len(n.targets) == 1 and isinstance(n.targets[0], ast.Name) \
+                and isinstance(n.value, ast.Constant) and type(n.value.value) in (int, float):
+            out[n.targets[0].id] = n.value.value
+    return out
+
+
+def generate2():
+    parts = ["(* GENERATED by harness/py2coq.py from the current source in %s -- do not edit. *)" % REPO,
+             "From Coq Require Import ZArith List Bool.", "From QE Require Import Base.Num Gen.Kernels.",
+             "Import ListNotations.", "Open Scope Z_scope.", "", PRELUDE2]
+    for spec in KERNELS2:
+        src = open(os.path.join(REPO, spec["file"])).read()
+        tree = ast.parse(src)
+        fn = find_func(tree, spec["py"])
+        rtype = spec["rtype"]
+        tr = Tr("gen_" + spec["cname"], fn, spec["params"], rtype, spec["fuels"], True, v2=True,
+                modconsts=module_consts(tree))
+        text = tr.translate()
+        sig = "returns (%s, ok__)" % ", ".join((["value"] if rtype is not None else []) + tr.outs)
+        parts.append("(* ---- %s :: %s  [bounds-checked: %s]%s ---- *)" % (
+            spec["file"], spec["py"], sig, ("  extra parameters: " + " ".join(tr.amb)) if tr.amb else ""))
+        parts.append(text)
+        parts.append("")
+        CALL2[spec["py"]] = dict(coq="gen_" + spec["cname"], params=spec["params"], rtype=rtype, outs=list(tr.outs),
+                                 amb=list(tr.amb), defaults=tr.defaults, modconsts=tr.modconsts)
+    return "\n".join(parts)
+
+
+def write_atomic(path, text):
+    old = open(path).read() if os.path.exists(path) else None
     if old != text:
-        tmp = OUT + ".tmp%d" % os.getpid()
+        tmp = path + ".tmp%d" % os.getpid()
         with open(tmp, "w") as f:
             f.write(text)
-        os.replace(tmp, OUT)   # atomic: concurrent checks never see a half-written file
-    if rc:
-        print("py2coq: FAILED (wrote a non-compiling Kernels.v): %s" % text.splitlines()[0])
-    return rc
+        os.replace(tmp, path)   # atomic: concurrent checks never see a half-written file
+
+
+def main():
+    rcs = 0
+    for gen, path in ((generate, OUT), (generate2, OUT2)):
+        (CALLABLE if gen is generate else CALL2).clear()
+        try:
+            text = gen()
+            rc = 0
+        except (Unsupported, OSError, SyntaxError, KeyError) as e:
+            # fail closed: the generated file then contains a definition that cannot typecheck
+            text = ("(* GENERATED by harness/py2coq.py -- TRANSLATION FAILED: %s *)\n"
+                    "Definition translation_failed : True := I I.\n" % (repr(e).replace("*)", "* )"),))
+            rc = 2
+        write_atomic(path, text)
+        if rc:
+            print("py2coq: FAILED (wrote a non-compiling %s): %s" % (os.path.basename(path), text.splitlines()[0]))
+        rcs = rcs or rc
+    return rcs
 
 
 if __name__ == "__main__":
